@@ -280,7 +280,7 @@ func ruleConsumerPrivate(r *Run, p *Prog) {
 }
 
 func checkC11(r *Run) {
-	r.Explain = "Does NOT decide the schedule-quantified inequality delivered + reported >= written. Decides the structural conditions it rests on: DRAIN in both Poller.Next and Waiter.Next no path leads from the edge on which isDone() was true to the end-of-stream return without a failed TryNext in between (the ring is found empty after cancellation was observed), so Close delivers what is still in the ring, including a Write that completed just before it; CLOSE Writer.Close orders cancel → wait for poll → close the wrapped writer, done is closed only by poll's deferred close, poll ends only on a nil from Next; FATAL Logger.Fatal closes a closable writer before os.Exit, the writer wrappers forward Close and multiLevelWriter.Close reaches every child; A20 unsigned subtractions in the diode are dominated by an order check on the same operands, and A21 every claimed ring position is published (no iteration retries with a new position, and every return of Set follows a successful compare-and-swap at the position claimed last) — both report ManyToOne.Set (KNOWN-FINDINGs: first-lap underflow makes the newer-bucket test vacuous; a producer that loses its slot abandons the claimed position, leaving a hole at which the consumer stalls); ALERT the drop report reaches the user: TryNext fast-forwards readIndex only together with alerter.Alert(new − old) and every delivering path advances readIndex past the delivered message, NewManyToOne keeps the caller's alerter, AlertFunc.Alert forwards unconditionally, and diode.NewWriter hands the ring the user's Alerter (or a wrapper that calls it on every path). multiLevelWriter.Close's counter covers every index; the value TryNext finally increments is the current read index, not a copy taken before the fast-forward; no value read from a ring slot is carried across a retry of Set. ALERT idle-keeps-read-head: a TryNext path that delivers nothing does not write readIndex. FATAL keeps-every-writer: every writer handed to MultiLevelWriter is in the list Close walks. ALERT fast-forward-lands-on-delivered: every store to readIndex before the final increment of a delivering path stores the delivered bucket's seq itself."
+	r.Explain = "Does NOT decide the schedule-quantified inequality delivered + reported >= written. Decides the structural conditions it rests on: DRAIN in both Poller.Next and Waiter.Next no path leads from the edge on which isDone() was true to the end-of-stream return without a failed TryNext in between (the ring is found empty after cancellation was observed), so Close delivers what is still in the ring, including a Write that completed just before it; CLOSE Writer.Close orders cancel → wait for poll → close the wrapped writer, done is closed only by poll's deferred close, poll ends only on a nil from Next; FATAL Logger.Fatal closes a closable writer before os.Exit, the writer wrappers forward Close and multiLevelWriter.Close reaches every child; A20 unsigned subtractions in the diode are dominated by an order check on the same operands, and A21 every claimed ring position is published (no iteration retries with a new position, and every return of Set follows a successful compare-and-swap at the position claimed last) — both report ManyToOne.Set (KNOWN-FINDINGs: first-lap underflow makes the newer-bucket test vacuous; a producer that loses its slot abandons the claimed position, leaving a hole at which the consumer stalls); ALERT the drop report reaches the user: TryNext fast-forwards readIndex only together with alerter.Alert(new − old) and every delivering path advances readIndex past the delivered message, NewManyToOne keeps the caller's alerter, AlertFunc.Alert forwards unconditionally, and diode.NewWriter hands the ring the user's Alerter (or a wrapper that calls it on every path). multiLevelWriter.Close's counter covers every index; the value TryNext finally increments is the current read index, not a copy taken before the fast-forward; no value read from a ring slot is carried across a retry of Set. ALERT idle-keeps-read-head: a TryNext path that delivers nothing does not write readIndex. FATAL keeps-every-writer: every writer handed to MultiLevelWriter is in the list Close walks. ALERT fast-forward-lands-on-delivered: every store to readIndex before the final increment of a delivering path stores the delivered bucket's seq itself. FATAL close-covers: in the writer wrappers every field written through is offered to io.Closer by Close."
 	r.NotDec = "delivered + reported >= written over all interleavings; that no message is dropped while fewer than the ring size are outstanding: schedule-quantified."
 	r.Assume = []string{"the two known findings are genuine per the property's own confirmation on the real code; no small safe repair exists (vendored lock-free protocol)"}
 	p := r.Use("J")
